@@ -233,6 +233,29 @@ def run(tier):
         b = (b, ()) if isinstance(b, int) else b
         return b[0] - a[0] == 4 and a[1] == b[1]
 
+    ftv = rules.variants_of(prog, 'parser::DataFrameType')
+
+    def mhdr_inline(v):
+        """the MHDR byte selected in place: {frame type: constant} when the value is a constant per variant of self.frame_type, else None"""
+        out_ = {}
+        inv_ = {i_: n_ for n_, i_ in ftv.items()}
+        for cv, cs in rules.value_cases(bf, v):
+            cv = peel(cv)
+            sel = [x for x in cs if x[0][0] == 'discr' and self_field(peel(x[0][1]), sp, 'frame_type')]
+            if cv[0] != 'const' or not sel:
+                return None
+            val = sel[-1][1]
+            if isinstance(val, tuple) and len(val) == 1 and val[0] in inv_:
+                out_[inv_[val[0]]] = cv[1]
+            elif isinstance(val, tuple) and val[:1] == ('not',):
+                rest = [n_ for i_, n_ in inv_.items() if i_ not in val[1]]
+                if len(rest) != 1:
+                    return None
+                out_[rest[0]] = cv[1]
+            else:
+                return None
+        return out_ or None
+
     def low16_le_of_fcnt(v):
         """the two low-order bytes of self.fcnt, little endian: (fcnt as u16).to_le_bytes() or fcnt.to_le_bytes()[..2]"""
         v = peel(v)
@@ -247,7 +270,7 @@ def run(tier):
     def is_port_cursor(o):
         return isinstance(o, tuple) and o[0] == 0 and len(o[1]) == 1 and o[1][0][1] == 1 and o[1][0][0].startswith('φ_')
     want = [
-        ('MHDR', lambda x: x[0] == 'byte' and x[1] == 0 and is_call(x[3], 'DataFrame::mhdr') and peel(x[3][2][0]) == ('param', sp)),
+        ('MHDR', lambda x: x[0] == 'byte' and x[1] == 0 and ((is_call(x[3], 'DataFrame::mhdr') and peel(x[3][2][0]) == ('param', sp)) or mhdr_inline(x[3]) is not None)),
         ('DevAddr', lambda x: x[0] == 'range' and (x[1], x[2]) == (1, 5) and is_call(x[3], 'DevAddr::as_wire_bytes') and self_field(x[3][2][0], sp, 'dev_addr')),
         ('FCtrl', lambda x: x[0] == 'byte' and x[1] == 5 and is_call(x[3], 'DataFrame::fctrl') and peel(x[3][2][0]) == ('param', sp)),
         ('FCnt', lambda x: x[0] == 'range' and (x[1], x[2]) == (6, 8) and low16_le_of_fcnt(x[3])),
@@ -382,10 +405,15 @@ def run(tier):
     from .. import absint_interp
     from ..absint import Lin
     ft = prog.adts[E + 'parser::DataFrameType']
-    mb = prog.by_short[E + 'creator::DataFrame::mhdr'][0]
     MHDR = {'UnconfirmedUp': 0x40, 'UnconfirmedDown': 0x60, 'ConfirmedUp': 0x80, 'ConfirmedDown': 0xa0}
     got = {}
-    for i, v in enumerate(ft['variants']):
+    mbl = prog.by_short.get(E + 'creator::DataFrame::mhdr') or []
+    mb = mbl[0] if len(mbl) == 1 else bf.body
+    if not mbl:
+        # no mhdr() helper: the byte is selected where it is written
+        w0 = [x for x in writes if x[0] == 'byte' and x[1] == 0]
+        got = (mhdr_inline(w0[0][3]) or {}) if len(w0) == 1 else {}
+    for i, v in enumerate(ft['variants'] if mbl else []):
         an = absint_interp.new_analyzer(prog, max_depth=3)
 
         def setup(an_, fr, st, i=i):
